@@ -88,6 +88,8 @@ def parse_ast(parser):
         a = atom()
         if P.at('?'):
             P.i += 1
+            if P.at('?'):
+                raise Inconclusive('lazy quantifier in the printed pattern (search order not modelled)')
             return ('opt', a)
         if P.at('*') or P.at('+'):
             raise InfiniteLanguage('unbounded quantifier in the printed pattern')
@@ -100,6 +102,11 @@ def parse_ast(parser):
             if j < len(P.items) and concrete(P.items[j]) == ord('}') and txt:
                 P.i = j + 1
                 lo, hi = (int(txt), int(txt)) if ',' not in txt else tuple(int(x) for x in txt.split(','))
+                if P.at('?'):
+                    # X{n}? is a LAZY quantifier, not an optional group: for an exact count the language and the order are those of X{n}
+                    P.i += 1
+                    if lo != hi:
+                        raise Inconclusive('lazy range quantifier in the printed pattern (search order not modelled)')
                 return ('rep', a, lo, hi)
         return a
 
